@@ -502,60 +502,62 @@ func checkC27(p *Prog, r *Result, tier string) {
 	}
 	// ---- D2: per-subscriber delivery has an escape on the subscriber's context
 	why = "delivery to a subscriber is a bare send (no select with the subscriber's context): one dead subscriber blocks all others"
-	ast.Inspect(DP.Body, func(n ast.Node) bool {
-		sel, ok := n.(*ast.SelectStmt)
-		if !ok {
-			return true
-		}
-		send, esc := false, false
-		var sendBase types.Object
-		wrongCtx := ""
-		// the send case comes first in source; make sure it is seen before the escape
-		for _, cc := range sel.Body.List {
-			if ss, ok := cc.(*ast.CommClause).Comm.(*ast.SendStmt); ok {
-				if cs, ok := unparen(ss.Chan).(*ast.SelectorExpr); ok {
-					if enc := p.enclosing(DP.Pkg, cs.Pos()); enc != nil {
-						sendBase = enc.objOf(cs.X)
+	for _, dpf := range p.withLocalCallees(DP, 2) {
+		ast.Inspect(dpf.Body, func(n ast.Node) bool {
+			sel, ok := n.(*ast.SelectStmt)
+			if !ok {
+				return true
+			}
+			send, esc := false, false
+			var sendBase types.Object
+			wrongCtx := ""
+			// the send case comes first in source; make sure it is seen before the escape
+			for _, cc := range sel.Body.List {
+				if ss, ok := cc.(*ast.CommClause).Comm.(*ast.SendStmt); ok {
+					if cs, ok := unparen(ss.Chan).(*ast.SelectorExpr); ok {
+						if enc := p.enclosing(DP.Pkg, cs.Pos()); enc != nil {
+							sendBase = enc.objOf(cs.X)
+						}
 					}
 				}
 			}
-		}
-		for _, cc := range sel.Body.List {
-			cl := cc.(*ast.CommClause)
-			switch c := cl.Comm.(type) {
-			case *ast.SendStmt:
-				send = true
-				if cs, ok := unparen(c.Chan).(*ast.SelectorExpr); ok {
-					if enc := p.enclosing(DP.Pkg, cs.Pos()); enc != nil {
-						sendBase = enc.objOf(cs.X)
+			for _, cc := range sel.Body.List {
+				cl := cc.(*ast.CommClause)
+				switch c := cl.Comm.(type) {
+				case *ast.SendStmt:
+					send = true
+					if cs, ok := unparen(c.Chan).(*ast.SelectorExpr); ok {
+						if enc := p.enclosing(DP.Pkg, cs.Pos()); enc != nil {
+							sendBase = enc.objOf(cs.X)
+						}
 					}
-				}
-			case *ast.ExprStmt:
-				if u, ok := unparen(c.X).(*ast.UnaryExpr); ok && u.Op == token.ARROW {
-					if call, ok := unparen(u.X).(*ast.CallExpr); ok {
-						if s2, ok := unparen(call.Fun).(*ast.SelectorExpr); ok && s2.Sel.Name == "Done" {
-							// the context must be the subscriber entry's own (a field of the same value the send goes to)
-							if fsel, ok := unparen(s2.X).(*ast.SelectorExpr); ok && sendBase != nil {
-								enc := p.enclosing(DP.Pkg, fsel.Pos())
-								if enc != nil && enc.objOf(fsel.X) == sendBase {
-									esc = true
+				case *ast.ExprStmt:
+					if u, ok := unparen(c.X).(*ast.UnaryExpr); ok && u.Op == token.ARROW {
+						if call, ok := unparen(u.X).(*ast.CallExpr); ok {
+							if s2, ok := unparen(call.Fun).(*ast.SelectorExpr); ok && s2.Sel.Name == "Done" {
+								// the context must be the subscriber entry's own (a field of the same value the send goes to)
+								if fsel, ok := unparen(s2.X).(*ast.SelectorExpr); ok && sendBase != nil {
+									enc := p.enclosing(DP.Pkg, fsel.Pos())
+									if enc != nil && enc.objOf(fsel.X) == sendBase {
+										esc = true
+									}
 								}
-							}
-							if !esc {
-								wrongCtx = exprStr(s2.X)
+								if !esc {
+									wrongCtx = exprStr(s2.X)
+								}
 							}
 						}
 					}
 				}
 			}
-		}
-		if send && esc {
-			why = ""
-		} else if send && wrongCtx != "" {
-			why = "the escape of a delivery waits on `" + wrongCtx + ".Done()`, not on the subscriber's own context: a subscriber that left while a delivery was in flight blocks the loop, which then serves neither the other subscribers nor Unsubscribe"
-		}
-		return true
-	})
+			if send && esc {
+				why = ""
+			} else if send && wrongCtx != "" {
+				why = "the escape of a delivery waits on `" + wrongCtx + ".Done()`, not on the subscriber's own context: a subscriber that left while a delivery was in flight blocks the loop, which then serves neither the other subscribers nor Unsubscribe"
+			}
+			return true
+		})
+	}
 	r.check2(why, "D2", DP.Name+" / delivery gives up when the subscriber's context ends", p.pos(DP.Decl), "select { case val.ch <- status: case <-val.ctx.Done(): }")
 	// D2 (origin): the subscriber's context is a child of the context the subscriber handed to Subscribe — that is the
 	// only thing that ends when the client goes away without unsubscribing; a detached context never fires the escape
